@@ -4,7 +4,7 @@ from ..e1 import engine, gen, oracles, reduce
 
 RULE = ("fault-heavy programs (task raises at any step, item errors / unset items, flush bodies raising after a prefix, ErrorFuture, failing lazy Future, "
         "non-future objects, catch on/off at every level); non-trivial = a failure was delivered into a task whose yield had >= 2 futures, "
-        "or was caught and the task continued, or crossed >= 2 task levels; distinct = distinct program JSON")
+        "or was caught and the task continued, or crossed >= 2 task levels; distinct = distinct program JSON. Library tools occur as leaves (incl. a function failing inside call_with_context).")
 ASSUMPTIONS = ["which items a raising flush leaves unset depends on batch composition: the reference takes the per-item action from the harness-written flush body's own log",
                "programs with NonAsyncContext / failing contexts are excluded (a context failure legitimately fails a task while its children are still pending)"]
 
